@@ -396,6 +396,11 @@ class ElfiModel(GraphicalModel):
         """
         kopy = super(ElfiModel, self).copy()
         kopy.name = "{}_copy_{}".format(self.name, random_name())
+        # The copy must not share the observed data or the node attributes with the original
+        kopy.observed = self.observed.copy()
+        for node in kopy.nodes:
+            state = kopy.get_state(node)
+            state['attr_dict'] = state['attr_dict'].copy()
         return kopy
 
     def save(self, prefix=None):
